@@ -81,13 +81,16 @@ static void rec_ops(void) {
     size_t i2 = idx;
     size_t cnt = _mi_commit_mask_next_run(&a, &i2);
     printf("F cm_next_run"); pm(&a); printf(" %llu = %llu %llu\n", U(idx), U(i2), U(cnt));
+    printf("F cmw_next_run"); pm(&a); printf(" %llu = %llu %llu\n", U(idx), U(i2), U(cnt));     // same call, compared with the word-level model
   }
   size_t idx, count, n = 0;
   size_t ri[MI_COMMIT_MASK_BITS], rc[MI_COMMIT_MASK_BITS];
   mi_commit_mask_foreach(&a, idx, count) { ri[n] = idx; rc[n] = count; n++; } mi_commit_mask_foreach_end()
-  printf("F cm_runs"); pm(&a); printf(" = %zu", n);
-  for (size_t i = 0; i < n; i++) printf(" %llu %llu", U(ri[i]), U(rc[i]));
-  printf("\n");
+  for (int pass = 0; pass < 2; pass++) {      // the same enumeration twice: bit-level model (Model/Mask.v), word-level model (Model/MaskWords.v)
+    printf(pass == 0 ? "F cm_runs" : "F cmw_runs"); pm(&a); printf(" = %zu", n);
+    for (size_t i = 0; i < n; i++) printf(" %llu %llu", U(ri[i]), U(rc[i]));
+    printf("\n");
+  }
 }
 
 static mi_segment_t* fakeseg;
